@@ -163,6 +163,13 @@ theorem timed_tests_ok : recv_timeout_precheck = .gt ∧ wait_timeout_loop_test 
 theorem drain_ok : drain_count_guarded_by_flag = true ∧ drain_buffer_before_senders = true ∧
     drain_returns_required_cap = true ∧ drain_lock_acquisitions = 1 ∧ drain_never_releases_lock = true := by decide
 
+/-- One lock acquisition per critical section: every entry point takes the channel lock once
+    (twice for the calls that have a second, cancel / waker-refresh section), observers and `close`
+    once, the futures' `Drop` once; nowhere is the lock released and re-taken inside a section. -/
+theorem lock_counts_ok :
+    lock_counts = [1, 2, 2, 1, 1, 1, 1, 2, 1, 2, 1, 1, 1, 2] ∧ observer_lock_counts = [1, 1, 1, 1, 1, 1, 1, 1, 1] ∧
+    future_drop_lock_counts = [1, 1] ∧ reacquire_after_release_sites = 0 ∧ close_single_guard = 1 := by decide
+
 /-- Clone/Drop/clone_* : 12 guarded updates, all `count > 0`; Drop terminates waiters exactly on
     the 1→0 transition with the other side alive; `close` is one guard: test, zero both, terminate, clear. -/
 theorem counts_ok :
@@ -208,6 +215,7 @@ end Kanal.Tie
 #print axioms Kanal.Tie.lock_acquisition_ok
 #print axioms Kanal.Tie.timed_tests_ok
 #print axioms Kanal.Tie.drain_ok
+#print axioms Kanal.Tie.lock_counts_ok
 #print axioms Kanal.Tie.counts_ok
 #print axioms Kanal.Tie.list_discipline_ok
 #print axioms Kanal.Tie.variant_good
